@@ -103,6 +103,8 @@ package gortsplib
 //@   opt inline=0
 //@   assert[C18]@call:writePacketRTPEncoded#1 len(encr) <= old(cf.cm.c.MaxPacketSize)
 //@   assert[C18]@call:writePacketRTPEncoded#2 len(plain) <= old(cf.cm.c.MaxPacketSize)
+//@   assert[C17]@call:writePacketRTPEncoded#1 sameslice(arg(4), encr)
+//@   assert[C17]@call:writePacketRTPEncoded#2 cf.cm.srtpOutCtx == nil && sameslice(arg(4), plain)
 //@   modifies *
 
 //@ func (cm *clientMedia) writePacketRTCP
@@ -114,6 +116,8 @@ package gortsplib
 //@   opt inline=0
 //@   assert[C18]@call:writePacketRTPEncoded#1 len(encr) <= old(ssf.ssm.ss.s.MaxPacketSize)
 //@   assert[C18]@call:writePacketRTPEncoded#2 len(plain) <= old(ssf.ssm.ss.s.MaxPacketSize)
+//@   assert[C17]@call:writePacketRTPEncoded#1 sameslice(arg(4), encr)
+//@   assert[C17]@call:writePacketRTPEncoded#2 ssf.ssm.srtpOutCtx == nil && sameslice(arg(4), plain)
 //@   modifies *
 
 //@ func (ssm *serverSessionMedia) writePacketRTCP
@@ -128,6 +132,8 @@ package gortsplib
 //@ func (ssf *serverStreamFormat) writePacketRTP
 //@   opt inline=0
 //@   assert[C18]@call:writePacketRTPEncoded len(buf) <= old(ssf.ssm.st.Server.MaxPacketSize)
+//@   assert[C17]@call:writePacketRTPEncoded#1 (rsm.srtpOutCtx != nil ==> sameslice(arg(4), encr)) && (rsm.srtpOutCtx == nil ==> sameslice(arg(4), plain))
+//@   assert[C17]@call:writePacketRTPEncoded#2 (ssf.ssm.srtpOutCtx != nil ==> sameslice(arg(4), encr)) && (ssf.ssm.srtpOutCtx == nil ==> sameslice(arg(4), plain))
 //@   modifies *
 
 //@ func (ssm *serverStreamMedia) writePacketRTCP
@@ -172,9 +178,12 @@ package gortsplib
 // The helpers that split a request URL into path, query and track id never index or slice out
 // of range, whatever the URL is, and a track id returned without error is never empty (so
 // findMediaByTrackID is never asked for medias[0] of an empty list by that path).
+// sri(s, sub): what stringsReverseIndex returns (a function of its two arguments)
+//@ ufun sri(s string, sub string) int
 //@ func stringsReverseIndex
 //@   opt safety-tag=C20
 //@   ensures[C20] ret >= -1 && (ret >= 0 ==> ret + len(substr) < len(s))
+//@   defines sri(s, substr)
 //@   modifies nothing
 //@   loop 1
 //@     invariant i <= len(s) - 1 - len(substr)
@@ -190,6 +199,8 @@ package gortsplib
 //@   requires u != nil
 //@   ensures[C20] err == nil ==> len(ret2) >= 1 && len(ret0) <= len(u.Path) && len(ret1) <= len(u.RawQuery)
 //@   ensures[C20] err != nil ==> ret0 == "" && ret1 == "" && ret2 == ""
+//@   ensures[C20] sri(u.RawQuery, "/trackID=") >= 0 ==> err == nil && ret0 == u.Path && len(ret1) == sri(u.RawQuery, "/trackID=")
+//@   ensures[C20] sri(u.RawQuery, "/trackID=") < 0 && sri(u.Path, "/trackID=") >= 0 ==> err == nil && ret1 == u.RawQuery && len(ret0) == sri(u.Path, "/trackID=")
 //@   modifies fresh
 
 //@ func findMediaByTrackID
